@@ -20,6 +20,7 @@ type PropSpec struct {
 	Functions   []string `json:"functions"`    // functions under contract whose obligations belong to the property
 	Lemmas      []string `json:"lemmas"`       // lemma names (proved) the property's argument uses
 	Kinds       []string `json:"kinds"`        // obligation kinds included (prefix match); empty = all
+	UntaggedFrom []string `json:"untagged_from"` // if set: untagged obligations are taken from these functions only
 	Tag         string   `json:"tag"`          // label tag (e.g. "c05"): labelled obligations of other properties are excluded
 	Assumptions []string `json:"assumptions"`  // names from DESIGN.md section 5
 	Twins       []Twin   `json:"twins"`        // must-fail variants (vacuity guards)
@@ -90,6 +91,18 @@ func (ps *PropSpec) includes(o *Obligation) bool {
 	}
 	if m := propTag.FindStringSubmatch(rest); m != nil {
 		return ps.Tag != "" && m[1] == ps.Tag
+	}
+	// untagged obligations: optionally only from selected functions
+	if len(ps.UntaggedFrom) > 0 {
+		ok := false
+		for _, f := range ps.UntaggedFrom {
+			if o.Func != nil && o.Func.Key == f {
+				ok = true
+			}
+		}
+		if !ok {
+			return false
+		}
 	}
 	// untagged obligations: filtered by kind (empty list = all)
 	if len(ps.Kinds) == 0 {
